@@ -11,7 +11,10 @@
 (*     send on dwac: with an unbuffered channel it is delivered only while *)
 (*     the watchdog is parked in its select, otherwise dropped; with a     *)
 (*     one-slot buffer (Buffered = TRUE, the repaired code) it is kept.    *)
-(*   peer: answers DWRs according to Mode ("all", "none", "fail").         *)
+(*   peer: answers DWRs according to Mode ("all", "none", "fail"; "dup" =  *)
+(*     every copy answered and further success answers sent unsolicited;   *)
+(*     "any" = each copy answered with success, with a failure, or         *)
+(*     ignored, and unsolicited answers).                                  *)
 (* Time is abstracted: the retransmission timer fires only when no answer  *)
 (* to the outstanding copy is pending (a responsive peer answers well      *)
 (* within the interval), so "responsive peer is spared" is an invariant.   *)
@@ -46,9 +49,18 @@ AckFromSlot == /\ wd = "select" /\ Buffered /\ slot
 Timer == /\ wd = "select" /\ toPeer = 0 /\ inq = <<>> /\ ~(Buffered /\ slot)
          /\ IF i > MaxRetx THEN wd' = "exited" /\ closed' = TRUE ELSE wd' = "towrite" /\ UNCHANGED closed
          /\ UNCHANGED <<i, round, slot, toPeer, inq, acked>>
-Peer == /\ toPeer > 0 /\ toPeer' = toPeer - 1
-        /\ inq' = CASE Mode = "all" -> Append(inq, "ok") [] Mode = "fail" -> Append(inq, "fail") [] OTHER -> inq
-        /\ UNCHANGED <<wd, i, round, slot, acked, closed>>
+\* the peer sees a DWR copy and answers it (success / failure) or ignores it, as its Mode allows
+PeerAnswer(k) == /\ toPeer > 0 /\ toPeer' = toPeer - 1
+                 /\ ((k = "ok" /\ Mode \in {"all", "dup", "any"}) \/ (k = "fail" /\ Mode \in {"fail", "any"}))
+                 /\ inq' = Append(inq, k)
+                 /\ UNCHANGED <<wd, i, round, slot, acked, closed>>
+PeerIgnore == /\ toPeer > 0 /\ toPeer' = toPeer - 1 /\ Mode \in {"none", "any"}
+              /\ UNCHANGED <<wd, i, round, slot, inq, acked, closed>>
+\* a duplicate / unsolicited success answer (bounded: at most two answers in flight)
+PeerDup == /\ Mode \in {"dup", "any"} /\ round > 0 /\ ~closed /\ Len(inq) < 2
+           /\ inq' = Append(inq, "ok")
+           /\ UNCHANGED <<wd, i, round, slot, toPeer, acked, closed>>
+Peer == PeerAnswer("ok") \/ PeerAnswer("fail") \/ PeerIgnore \/ PeerDup
 HandleDWA ==
   /\ inq # <<>> /\ ~closed /\ inq' = Tail(inq)
   /\ IF Head(inq) = "fail" THEN UNCHANGED <<wd, slot, acked>>
@@ -61,7 +73,7 @@ Spec == Init /\ [][Next]_vars
 
 \* WatchdogObs at design level
 Bounded           == i <= MaxRetx + 1
-SparesResponsive  == Mode = "all" => ~closed
+SparesResponsive  == Mode \in {"all", "dup"} => ~closed
 ClosesOnlyExhausted == closed => (i = MaxRetx + 1 /\ ~acked)
 FailIsNotAck      == Mode = "fail" => ~acked
 =============================================================================
